@@ -13,7 +13,7 @@ Executable model of one inertial-flow bisection step: `src/inertial_flow.rs` (`s
                      for keys < coordinates.len(), which is a precondition of `sub_step` anyway
                      (`coordinates[*a]`): `get` of an absent key returns usize::MAX (the Vec variant; the
                      Map variant would panic) and the model never reads an absent key
-                     (`Tbx.InertialFlow.renum_get_present`).
+                     (`Tbx.InertialFlow.renum_spec`, `ext_get` in Proofs/InertialFlowTable.lean).
   renumLoop        : `for e in &mut edges { … }` — consecutive numbering of the remaining end points from
                      2 in edge order, source before target
   runBounded       : `run_with_upper_bound`: `while bfs() { flow += dfs(); if flow > bound { abort } }`,
